@@ -152,6 +152,9 @@ func describeEvent(ev *cEvent) string {
 		s = fmt.Sprintf("open(%q,%q)", ev.Dir, ev.Name)
 	case "append":
 		s = fmt.Sprintf("append(fd#%d,%q)", ev.FD, ev.Data)
+		if ev.Nil {
+			s = fmt.Sprintf("append(fd#%d,nil)", ev.FD)
+		}
 	case "close":
 		s = fmt.Sprintf("close(fd#%d)", ev.FD)
 	case "readat":
@@ -399,10 +402,17 @@ func eventClass(ev *cEvent) string {
 	case "create", "link":
 		return fmt.Sprintf("%s=%v", ev.K, ev.OK)
 	case "readat":
+		if ev.Len == 0 {
+			return "readat=zero-length"
+		}
 		if ev.Bytes == "" {
 			return "readat=empty"
 		}
 		return "readat=data"
+	case "append", "atomic":
+		if ev.Data == "" {
+			return ev.K + "=empty-data"
+		}
 	case "list":
 		return fmt.Sprintf("list=%d", len(ev.Names))
 	}
@@ -524,7 +534,7 @@ func runC14(r *core.Run) (bool, string) {
 	r.SetRule("a history is 2–4 client goroutines × 3–8 calls on one fresh filesystem (shared directory d, sometimes e; sealed files L,S1,S2; one appender file per client; churn names n1,n2,m1 with Create/Link/AtomicCreate/Delete/List conflicts), preceded by a sequential setup and followed by a sequential read-back of every listed file; " +
 		"every call is stamped at the client boundary from one atomic counter (call stamp taken before the invocation, return stamp after the reply). evaluations = recorded calls in histories that were checked; " +
 		"distinct = set of (implementation, class of call A, class of call B, same target name?) over pairs of calls of different clients whose intervals overlapped, class = operation + outcome (create/link ok or not, readat empty or data, list size); " +
-		"pool A keeps at most one open descriptor per inode, pool B adds 'several clients open one sealed file' and 'open while another client appends'. " +
+		"pool A keeps at most one open descriptor per inode, pool B adds 'several clients open one sealed file' and 'open while another client appends', pool C is pool B's mix with boundary arguments (empty and nil data for Append / AtomicCreate, zero-length ReadAt, offsets at / beyond / far beyond the end, reads crossing the end). " +
 		"Boundary-argument matrix (matrix_* keys): every operation class = operation + boundary argument (empty / nil slices for Append and AtomicCreate, zero-length ReadAt, offsets at / beyond / far beyond EOF, reads crossing EOF, empty files and directories, names that exist / are free / are used by both goroutines, Mkdir, and on MemFs the refused calls: closed descriptor, wrong mode, missing name or directory) is looped by one goroutine while a second goroutine loops every class (itself included) on one fresh filesystem, with no harness synchronisation between start barrier and join; plain and -race builds; " +
 		"a pair counts as 'ran concurrently' when the monotonic-clock [before,after] intervals of at least one call of each goroutine intersect; each class checks only what holds in every linearization, refused classes decide only races and process death")
 	r.Assume("every issued call is valid in every order consistent with real time (names that are deleted are only touched by Create, Link-target, List and their single owner; AtomicCreate of a name only by its owner, so DirFs's shared <name>.tmp staging — property C13 — is not exercised concurrently)")
@@ -548,6 +558,7 @@ func runC14(r *core.Run) (bool, string) {
 	}
 	perA := r.Pick(400, 10000) // histories per (impl, build, gomaxprocs) in pool A
 	perB := r.Pick(120, 2500)
+	perC := r.Pick(120, 2500)
 	var batches []c14batch
 	for _, impl := range []string{"memfs", "dirfs"} {
 		for _, build := range []string{"plain", "race"} {
@@ -558,6 +569,7 @@ func runC14(r *core.Run) (bool, string) {
 			for pi, procs := range []int{1, 2, 4, 16} {
 				batches = append(batches, c14batch{impl, "A", build, procs, pi * perA, perA, bin})
 				batches = append(batches, c14batch{impl, "B", build, procs, pi * perB, perB, bin})
+				batches = append(batches, c14batch{impl, "C", build, procs, pi * perC, perC, bin})
 			}
 		}
 	}
